@@ -540,9 +540,15 @@ def _build_aggr(inp):
         o = outs[0]
         iss = []
         if o.get("spec.envelope") != "1":
-            kind = "DISAGREE" if has_nan else "PROPFAIL"
-            iss.append(Issue(kind, "envelope", f"{desc} returned {out.tolist()}; the envelope of the covering rectangles is "
-                             f"lower={o.get('mlo')} upper={o.get('mhi')}", sig + "/envelope"))
+            if has_nan:
+                # NaN rectangle entries never reach the helper for the inputs C16 is claimed for (the pointwise intervals
+                # of non-empty classes are NaN-free, C16_no_nan): how NaN propagates through min / max is modelled as coded
+                # but is nobody's contract - a refactoring that changes it (Python's order-dependent min vs NumPy's
+                # propagating one) keeps the property, so a difference here is counted, not reported
+                case.skipped += 1
+            else:
+                iss.append(Issue("PROPFAIL", "envelope", f"{desc} returned {out.tolist()}; the envelope of the covering rectangles "
+                                 f"is lower={o.get('mlo')} upper={o.get('mhi')}", sig + "/envelope"))
         if not has_nan:
             ordered_in = bool((dyp[:, 0] <= dyp[:, 1]).all())
             for cl_ in ("shape", "nanfree") + (("ordered",) if ordered_in else ()):
@@ -551,7 +557,8 @@ def _build_aggr(inp):
                                      f"{sig}/{cl_}"))
         return iss
 
-    return Case(ID, inp, [ln], judge, tags, 0, pre)
+    case = Case(ID, inp, [ln], judge, tags, 0, pre)
+    return case
 
 
 def _build_rot(inp):
